@@ -1,5 +1,5 @@
 """Property -> rule list. Each rule: (id, text, function(ctx, report))."""
-import rules_cmd, rules_expire, rules_conn, rules_auth, rules_tx, rules_db, rules_zset, rules_rdb, rules_aof, rules_block, rules_pubsub, rules_stream
+import rules_cmd, rules_expire, rules_conn, rules_auth, rules_tx, rules_db, rules_zset, rules_rdb, rules_aof, rules_block, rules_pubsub, rules_stream, rules_scan
 from shared import SERVER
 
 
@@ -168,6 +168,15 @@ def _c03():
     ]
 
 
+def _c19():
+    return [
+        ("R-DISPATCH", "SCAN/HSCAN/SSCAN/ZSCAN have read-only dispatcher arms reaching the engine", rules_cmd.make_dispatch_rule("C19")),
+        ("R-SCAN-FILTER", "every element added to a scan result is under a successful MATCH test or under `no pattern`; expired keys and keys of another TYPE never enter SCAN's candidate list", rules_scan.rule_filter),
+        ("R-SCAN-CURSOR", "the continuation cursor is not a position in a list rebuilt from the live collection on every call (necessary for completeness under deletions)", rules_scan.rule_cursor),
+        ("R-SCAN-TERM", "cursor 0 is returned on reaching the end; the position never decreases", rules_scan.rule_term),
+    ]
+
+
 REGISTRY = {
     "C01": _c01,
     "C02": _c02,
@@ -184,6 +193,7 @@ REGISTRY = {
     "C15": _c15,
     "C16": _c16,
     "C17": _c17,
+    "C19": _c19,
     "C18": _c18,
 }
 
